@@ -44,4 +44,29 @@ try:
 finally:
     sh("git -C /repo worktree remove --force %s" % wt)
     shutil.rmtree(wt, ignore_errors=True)
+if "--adopt" in rest and res.get("applies") and res.get("demo_clean") == 0 and res.get("demo_patched", 0) != 0 and res.get("suite_ok", True):
+    dst = "/verif/seeded/" + name
+    os.makedirs(dst, exist_ok=True)
+    shutil.copy(os.path.join(seed, "patch.diff"), dst)
+    shutil.copy(demo, dst)
+    notes = {}
+    if os.path.exists(os.path.join(seed, "notes.json")):
+        try:
+            notes = json.load(open(os.path.join(seed, "notes.json")))
+        except Exception:
+            notes = {}
+    meta_p = os.path.join(dst, "meta.json")
+    meta = json.load(open(meta_p)) if os.path.exists(meta_p) else {}
+    meta.update({"id": name, "property": notes.get("property", name.split("_")[0]), "summary": notes.get("summary"),
+                 "needs": notes.get("needs"), "origin": "independent sub-agent given only the property text and a scratch worktree",
+                 "confirmed": {"patch_applies_to_repo_HEAD": True, "demo_exit_clean_tree": res["demo_clean"],
+                               "demo_exit_with_change": res["demo_patched"], "pinned_suite_matches_baseline": res.get("suite_ok"),
+                               "how": "tools/seedcheck.py: scratch worktree of /repo HEAD under /tmp/sc, git apply, demo.py run with PYTHONPATH=<worktree> before and after, tools/baseline.py <worktree>"}})
+    runs = meta.setdefault("checks_run", {})
+    for c in checks:
+        r = res["check_" + c]
+        runs[c] = {"tier": "thorough" if thorough else "quick", "exit": r["exit"], "violations": r["violations"], "caught": r["exit"] == 1, "first_failure": r["detail"][:1]}
+    meta["caught_by"] = sorted(c for c, r in runs.items() if r["caught"])
+    json.dump(meta, open(meta_p, "w"), indent=1)
+    print("adopted ->", dst)
 print(json.dumps(res, indent=1))
